@@ -1,5 +1,6 @@
 import PhyVerif.Driver.Json
 import PhyVerif.Driver.C16
+import PhyVerif.Driver.C15
 open Lean PhyVerif.Driver
 
 def dispatch (j : Json) : R Json := do
@@ -7,6 +8,7 @@ def dispatch (j : Json) : R Json := do
   let op ← getStr j "op"
   match p with
   | "C16" => runC16 op j
+  | "C15" => runC15 op j
   | _ => .error s!"unknown property {p}"
 
 def handle (line : String) : String :=
